@@ -6,10 +6,12 @@
    transform) keeps the element sequence as documented, and the input/label pairing theorems.
    The element iterator (increment, decrement, advance by any signed offset: the loops of
    DataElementIterator::advance) dereferences exactly the element whose index it reports.
-   NOT proved (tied to the code by the correspondence run only, see DESIGN.md#C03):
-   repartitionByClass' class-stable order, binarySubProblem, view -> dataset.                      *)
+   repartitionByClass gathers by a permutation (multiset of inputs and of labels unchanged, both
+   containers re-batched identically).
+   NOT proved (tied to the code by the correspondence run only, see DESIGN.md#C03): that the
+   repartitionByClass order is class-sorted and stable, binarySubProblem, view -> dataset.         *)
 From Coq Require Import List Arith Permutation.
-From SharkV Require Import ListAux C03Model C03Proofs C03Iter C12Model C12Proofs.
+From SharkV Require Import ListAux C03Model C03Proofs C03Iter C03Class C12Model C12Proofs.
 Import ListNotations.
 
 Theorem C03_optimal_batch_sizes :
@@ -165,6 +167,18 @@ Proof.
   - intros n Hn. apply advance_backward_ok; auto.
 Qed.
 Print Assumptions C03_iterator_steps.
+
+Theorem C03_repartition_by_class :
+  forall I (dI : I) m (d d' : labeled I nat),
+    repartition_by_class dI m d = Some d' -> nelems (inputs d) = nelems (labels d) ->
+    let idx := class_order (elems (labels d)) in
+    elems (inputs d') = map (fun i => nth i (elems (inputs d)) dI) idx /\
+    elems (labels d') = map (fun i => nth i (elems (labels d)) 0) idx /\
+    Permutation (elems (inputs d')) (elems (inputs d)) /\
+    Permutation (elems (labels d')) (elems (labels d)) /\
+    sizes (inputs d') = sizes (labels d').
+Proof. intros I. exact (@repartition_by_class_spec I). Qed.
+Print Assumptions C03_repartition_by_class.
 
 (* non-vacuity *)
 Example C03_example :
